@@ -7,6 +7,7 @@
              | rekey <p> <old id> <value>
              | move <p> <id> <q>
              | clone <p> <id> <q> <refs> | remove <p> <id> <refs> | clear <p> <id> <refs>
+             | reset <p> <id> <value> <refs>        (Job.reset() = clear(); init(): `resetProg`)
      refs   := <n> (s | b | t x<hexname> | f x<hexpath> | d x<hexpath>)*
      events := <n> (<step> F <errno> | <step> C | <step> T <bytes>)*
    answer:  ev <events as given>|<result>|<step>,<step>,…|<dir>;<dir>;…|<ids check() reports in project 0>|<… project 1>
@@ -151,6 +152,21 @@ def pOp : P (Op JVal × List Key) := fun ts =>
     | [] => none
   | _ => none
 
+/-- the program to run and the keys it may create: the six operations of `pOp` (unchanged) and
+    `reset <proj> <id> <value> <refs>` = `Job.reset()` of the job in directory `<id>` whose in-memory
+    state point is `<value>`: `clear` with scan order `<refs>`, then `init` (no force) -/
+def pCmd : P (Prog JVal × List Key) := fun ts =>
+  match ts with
+  | "reset" :: r => do
+    let (p, r) ← pNat r
+    match r with
+    | id :: r =>
+      let (v, r) ← parseValue r
+      let (refs, r) ← pCounted pRef r
+      pure ((resetProg jcodec (p, id) refs v, [(p, id)]), r)
+    | [] => none
+  | ts => (pOp ts).map (fun ((op, keys), r) => ((op.prog jcodec, keys), r))
+
 def worldOf (dirs : List (Key × JobDir JVal)) : World JVal :=
   fun k => (dirs.find? (fun kd => kd.1 = k)).map (·.2)
 
@@ -218,14 +234,14 @@ def stepLife (line : String) : String :=
     match pCounted pDir ts with
     | none => "bad-value"
     | some (dirs, r) =>
-      match pOp r with
+      match pCmd r with
       | none => "bad-op"
-      | some ((op, opKeys), r) =>
+      | some ((prog, opKeys), r) =>
         match pCounted pEvent r with
         | some (evs, []) =>
           let w := worldOf dirs
           let keys := dedupKeys (dirs.map (·.1) ++ opKeys)
-          let out := run jcodec (evOf evs) (op.prog jcodec) w
+          let out := run jcodec (evOf evs) prog w
           "ev " ++ " ".intercalate r ++ "|" ++ renderRes out.res ++ "|" ++ ",".intercalate (out.acc.trace.reverse.map renderStep) ++ "|" ++
             renderWorld out.w keys ++ "|" ++ renderCheck out.w keys 0 ++ "|" ++ renderCheck out.w keys 1
         | _ => "bad-value"
